@@ -23,4 +23,6 @@ AlphaSer == << <<91>>, <<93>>, <<123>>, <<125>>, <<44>>, <<58>>,
                <<34, 92, 117, 100, 56, 51, 100, 92, 117, 100, 101, 48, 48, 127, 32, 34>>,  \* U+1F600 DEL SPACE
                <<34, 92, 98, 92, 102, 92, 114, 92, 116, 233, 8232, 34>>,  \* "\b\f\r\t" e-acute U+2028
                <<45, 48>>, <<49, 101, 45, 55>>, <<102, 97, 108, 115, 101>> >>
+\* { } [ ] , : " 0 SPACE    (small alphabet for the coverage run of the state machine)
+AlphaCov == << <<123>>, <<125>>, <<91>>, <<93>>, <<44>>, <<58>>, <<34>>, <<48>>, <<32>> >>
 =============================================================================
